@@ -14,7 +14,8 @@ MAXLEN = 8192
 RULE = ("inputs <= 8 KiB, nesting depth <= 64, both providers, entry points Calendar/Component/Event.from_ical with multiple in {False, True}: random bytes; "
         "iCalendar token soup; structured mutants (G5) of the fixtures, the fuzz corpus and generated calendars, biased to VTIMEZONE blocks, TZID parameters, "
         "mismatched BEGIN/END, duplicated singletons, truncation; a hostile TZID list (tz-database directory names, '.', '..', 300-character ids, NUL, "
-        "Windows names, posix/...); malformed VTIMEZONE definitions. (a) only ValueError may leave from_ical, and nothing may leave to_ical()/walk() of what "
+        "Windows names, posix/...); malformed VTIMEZONE definitions; property lines whose typed value is drawn from a grammar of numeric boundaries per RFC 5545 value type "
+        "(DURATION sign x weeks/days/time parts around 999999999 days, DATE/DATE-TIME fields around year 0001/9999 and 24:60:60 with edge zones, PERIOD, UTC-OFFSET, INTEGER, FLOAT, RECUR parts). (a) only ValueError may leave from_ical, and nothing may leave to_ical()/walk() of what "
         "was returned; (b) bounded progress: <= 10^7 interpreter function-entry events (sys.monitoring PY_START|PY_RESUME, all frames) per case; (c) "
         "isolation: an unmistakably unparsable line inserted into a VEVENT of a well-formed generated calendar must leave the parse successful and the "
         "tree identical except for exactly one more errors entry in that event; inserted into a non-lenient component it must give ValueError; "
@@ -46,6 +47,108 @@ EXTREMES = ["DURATION:P99999999999D", "DURATION:-P99999999999999999W", "TRIGGER:
             "DTSTART:20240230T000000", "DTSTART:20240101T240000", "DURATION:P1W1D", "DURATION:PT1H1S", "REPEAT:" + "8" * 100, "X-BIG:" + "z" * 6000,
             "FREEBUSY:19970308T160000Z/PT3H,garbage", "FREEBUSY:19970308T160000Z/PT3H,19970230T000000Z/PT1H", "FREEBUSY:19970308T160000Z/PT3H,", "EXDATE:20240101T000000,20240230T000000",
             "RDATE:20240101T000000,x", "CATEGORIES:a,b\\", "ATTENDEE;CN=a,\"b:mailto:x", "RRULE:FREQ=DAILY;BYDAY=MO,XX", "RRULE:FREQ=DAILY;UNTIL=20240101,20240102"]
+
+
+BIG = ("0", "1", "7", "23", "24", "59", "60", "61", "86399", "86400", "142857142", "142857143", "999999998", "999999999", "1000000000", "2147483647", "2147483648",
+       "9223372036854775807", "9223372036854775808", "99999999999999999999")
+EDGE_ZONES = ("Pacific/Kiritimati", "Etc/GMT+12", "Pacific/Apia", "America/New_York", "Europe/Berlin", "Australia/Lord_Howe", "Asia/Kolkata", "UTC", "Africa/Monrovia")
+
+
+def b_dur(rng):
+    sign = rng.choice(("", "", "+", "-", "-"))
+    if rng.randrange(5) == 0:
+        return f"{sign}P{rng.choice(BIG)}W"
+    out = f"{sign}P"
+    if rng.randrange(4):
+        out += rng.choice(BIG) + "D"
+    t = ""
+    for unit in "HMS":
+        if rng.randrange(2):
+            t += rng.choice(BIG) + unit
+    if t or out.endswith("P"):
+        out += "T" + (t or rng.choice(BIG) + "S")
+    return out
+
+
+def b_date(rng):
+    return rng.choice(("0000", "0001", "0001", "9999", "9999", "1970", "2038", "1582", "1900")) + rng.choice(("00", "01", "01", "02", "12", "12", "13")) + \
+        rng.choice(("00", "01", "01", "28", "29", "30", "31", "31", "32"))
+
+
+def b_dt(rng):
+    return b_date(rng) + "T" + rng.choice(("00", "00", "23", "23", "24", "12")) + rng.choice(("00", "00", "59", "59", "60")) + rng.choice(("00", "00", "59", "59", "60", "61")) + \
+        rng.choice(("", "", "Z", "Z", "z", "+0100"))
+
+
+def b_utcoff(rng):
+    return rng.choice("+-") + rng.choice(("00", "00", "12", "14", "23", "24", "99")) + rng.choice(("00", "00", "30", "59", "60")) + rng.choice(("", "", "", "00", "01", "59", "60"))
+
+
+def b_recur(rng):
+    parts = ["FREQ=" + rng.choice(("SECONDLY", "MINUTELY", "HOURLY", "DAILY", "WEEKLY", "MONTHLY", "YEARLY", "YEARLY"))]
+    for _ in range(rng.randrange(0, 4)):
+        k = rng.randrange(8)
+        if k == 0:
+            parts.append("COUNT=" + rng.choice(BIG))
+        elif k == 1:
+            parts.append("INTERVAL=" + rng.choice(BIG))
+        elif k == 2:
+            parts.append("UNTIL=" + rng.choice((b_dt(rng), b_date(rng))))
+        elif k == 3:
+            parts.append("BYDAY=" + rng.choice(("", "-", "+")) + rng.choice(("", "0", "1", "53", "54", "99", "366")) + rng.choice(("MO", "SU", "XX", "")))
+        elif k == 4:
+            parts.append("BYMONTH=" + rng.choice(("0", "1", "12", "13", "5L", "L", "-1")))
+        elif k == 5:
+            parts.append(rng.choice(("BYMONTHDAY", "BYYEARDAY", "BYWEEKNO", "BYSETPOS", "BYHOUR", "BYMINUTE", "BYSECOND")) + "=" + rng.choice(("-", "", "")) + rng.choice(BIG[:12] + ("366", "367", "53", "54", "31", "32")))
+        elif k == 6:
+            parts.append("WKST=" + rng.choice(("MO", "SU", "XX", "")))
+        else:
+            parts.append("RSCALE=" + rng.choice(("GREGORIAN", "HEBREW", "")) + ";SKIP=" + rng.choice(("OMIT", "FORWARD", "x")))
+    if rng.randrange(3) == 0:
+        rng.shuffle(parts)
+    return ";".join(parts)
+
+
+def boundary_line(rng):
+    """one property line whose typed value sits on a numeric boundary of its value type (RFC 5545 3.3)"""
+    k = rng.randrange(9)
+    tz = ";TZID=" + rng.choice(EDGE_ZONES) if rng.randrange(3) == 0 else ""
+    if k == 0:
+        return rng.choice(("DURATION", "TRIGGER", "TRIGGER;RELATED=END", "REFRESH-INTERVAL;VALUE=DURATION", "X-D;VALUE=DURATION")) + ":" + b_dur(rng)
+    if k == 1:
+        return rng.choice(("DTSTART", "DTEND", "DUE", "RECURRENCE-ID", "EXDATE", "RDATE", "TRIGGER;VALUE=DATE-TIME", "X-T;VALUE=DATE-TIME")) + tz + ":" + \
+            ",".join(b_dt(rng) for _ in range(rng.choice((1, 1, 1, 2, 3))))
+    if k == 2:
+        return rng.choice(("DTSTAMP", "CREATED", "LAST-MODIFIED", "COMPLETED", "ACKNOWLEDGED")) + tz + ":" + b_dt(rng)
+    if k == 3:
+        return rng.choice(("DTSTART", "DTEND", "DUE", "EXDATE", "RDATE", "RECURRENCE-ID")) + rng.choice((";VALUE=DATE", ";VALUE=DATE", "", tz)) + ":" + b_date(rng)
+    if k == 4:
+        return rng.choice(("FREEBUSY", "FREEBUSY;FBTYPE=BUSY", "RDATE;VALUE=PERIOD", "RDATE;VALUE=PERIOD" + tz, "X-P;VALUE=PERIOD")) + ":" + \
+            ",".join(b_dt(rng) + "/" + (b_dur(rng) if rng.randrange(2) else b_dt(rng)) for _ in range(rng.choice((1, 1, 2))))
+    if k == 5:
+        return rng.choice(("TZOFFSETFROM", "TZOFFSETTO", "X-O;VALUE=UTC-OFFSET")) + ":" + b_utcoff(rng)
+    if k == 6:
+        return rng.choice(("SEQUENCE", "PRIORITY", "REPEAT", "PERCENT-COMPLETE", "X-I;VALUE=INTEGER")) + ":" + rng.choice(("", "-", "+")) + rng.choice(BIG)
+    if k == 7:
+        f = lambda: rng.choice(("", "-", "+")) + rng.choice(("0", "90", "90.0000001", "180", "1e308", "1e309", "1E5", ".5", "5.", "nan", "inf", "0.000000000000000000000000001", rng.choice(BIG)))
+        return rng.choice(("GEO:" + f() + ";" + f(), "GEO:" + f(), "X-F;VALUE=FLOAT:" + f()))
+    return rng.choice(("RRULE", "EXRULE", "RRULE", "X-R;VALUE=RECUR")) + ":" + b_recur(rng)
+
+
+def boundary_doc(rng):
+    comp = rng.choice(("VEVENT", "VEVENT", "VTODO", "VJOURNAL", "VFREEBUSY", "VALARM", "STANDARD", "DAYLIGHT"))
+    lines = [boundary_line(rng) for _ in range(rng.choice((1, 1, 2, 3)))]
+    body = "".join(l + "\r\n" for l in lines)
+    if comp in ("STANDARD", "DAYLIGHT"):
+        base = ["DTSTART:19700101T000000", "TZOFFSETFROM:+0100", "TZOFFSETTO:+0100"]
+        base = [b for b in base if rng.randrange(4)]
+        wrap = "BEGIN:VTIMEZONE\r\nTZID:Verif/B\r\nBEGIN:" + comp + "\r\n" + "".join(b + "\r\n" for b in base) + body + "END:" + comp + "\r\nEND:VTIMEZONE\r\n" \
+               "BEGIN:VEVENT\r\nDTSTART;TZID=Verif/B:20240101T120000\r\nEND:VEVENT\r\n"
+    elif comp == "VALARM":
+        wrap = "BEGIN:VEVENT\r\nDTSTART:20240101T120000Z\r\nBEGIN:VALARM\r\n" + body + "END:VALARM\r\nEND:VEVENT\r\n"
+    else:
+        wrap = f"BEGIN:{comp}\r\n{body}END:{comp}\r\n"
+    return ("BEGIN:VCALENDAR\r\n" + wrap + "END:VCALENDAR\r\n").encode("utf-8")
 
 
 def corpus():
@@ -123,7 +226,7 @@ def run(ctx):
         prov = "zoneinfo" if n % 2 else "pytz"
         entry = rng.choice(("Calendar", "Calendar", "Component", "Event"))
         multiple = rng.randrange(2)
-        r = n % 10
+        r = n % 12
         if r == 0:
             data = bytes(rng.randrange(256) for _ in range(rng.randrange(0, 200)))
         elif r == 1:
@@ -136,6 +239,11 @@ def run(ctx):
             g = G(rng, hostile=0.2)
             ctx.check(("isolate", prov, rng.randrange(10 ** 9), rng.choice(BAD_LINES), rng.choice(("VEVENT", "VEVENT", "VTODO", "VCALENDAR", "VALARM", "VFREEBUSY", "TOPLEVEL"))), "isolation-random")
             continue
+        elif r == 10:
+            data = boundary_doc(rng)
+        elif r == 11:
+            ctx.check(("isolate", prov, rng.randrange(10 ** 9), boundary_line(rng), rng.choice(("VEVENT", "VEVENT", "VTODO", "VALARM", "VFREEBUSY"))), "isolation-boundary")
+            continue
         elif r == 7:
             depth = rng.randrange(1, 65)
             name = rng.choice((b"VEVENT", b"X-N", b"VCALENDAR", b"VTIMEZONE", b"VALARM"))
@@ -145,7 +253,7 @@ def run(ctx):
             g = G(rng, hostile=0.2)
             data = mutate.mutate(rng, emit(g.calendar()).encode("utf-8"), rounds=rng.randrange(1, 5))
         ctx.check(("parse", prov, entry, multiple, data[:MAXLEN]), ("random-bytes", "token-soup", "vtimezone-soup", "vtimezone-soup", "fixture-mutants", "fixture-mutants",
-                                                                    "", "nesting", "G3-mutants", "G3-mutants")[r])
+                                                                    "", "nesting", "G3-mutants", "G3-mutants", "boundary-values", "")[r])
     if CLOCK is not None:
         ctx.count("max-steps-seen", 0)
     for (fn, func, exc), cnt in sorted(RECORDER.sites.items()) if RECORDER else []:
